@@ -22,8 +22,14 @@ HRec(e, h) == [level |-> e.level, profile |-> e.ft.profile, version |-> h.ver, b
 
 V(c, a) == [c |-> c, alarm |-> a]
 
-HeaderClause(e, opts, h) ==
+HeaderClause(e, opts, lcols, h) ==
+  \* the known finding, attributed only to its exact input class: levels 64/65, low-delay profile, the
+  \* validator rejects key major_version, the value it read is the one the (11.2.2) minimal-version rule
+  \* dictates for this header, and the deviation model predicts the rejection (every other field is
+  \* admitted by some column of the level, the version is not)
   IF ~h.ok /\ h.exc = "ValueNotAllowedInLevel" /\ h.key = "major_version" /\ WellFormed(h.e)
+          /\ e.level \in {64, 65} /\ e.ft.profile = 0
+          /\ h.ver = HeaderVersion(e.ft.profile, h.e)
           /\ DeviationLevelVersion(HRec(e, h))          THEN V("RejectedLevelVersion", TRUE)
   ELSE IF ~h.ok                                         THEN V("Rejected", TRUE)
   ELSE IF h.dec # e.req                                 THEN V("WrongParameters", TRUE)
@@ -31,7 +37,7 @@ HeaderClause(e, opts, h) ==
   ELSE IF ~WellFormed(h.e)                              THEN V("SpecMalformed", FALSE)
   ELSE IF DecodeHeader(h.b, h.e) # h.dec                THEN V("SpecDecode", FALSE)
   ELSE IF h.ver # HeaderVersion(e.ft.profile, h.e)      THEN V("SpecVersion", FALSE)
-  ELSE IF ~LevelAccepts(HRec(e, h))                     THEN V("SpecLevel", FALSE)
+  ELSE IF ~(\E k \in lcols : ColumnAllowsHeader(LevelColumns[k], HRec(e, h))) THEN V("SpecLevel", FALSE)
   ELSE IF e.full /\ ~(\E t \in 1..Len(opts[h.b + 1]) : opts[h.b + 1][t] = h.e)
                                                         THEN V("SpecOption", FALSE)
   ELSE V("ok", FALSE)
@@ -48,7 +54,9 @@ LineBad(e, line) ==
   LET cols == MatchingColumns(CV(e.level, e.pcm, e.req, e.ft))
       \* the design's option lists per base format, computed once per line (only for fully recorded lines)
       opts == [b1 \in 1..NumBases |-> IF e.full THEN HeadersForBase(cols, e.req, b1 - 1) ELSE <<>>]
-      cl   == [j \in 1..Len(e.hs) |-> HeaderClause(e, opts, e.hs[j])]
+      \* the validator can only ever match columns of the stream's level: select them once per line
+      lcols == {k \in 1..Len(LevelColumns) : Allowed(LevelColumns[k], "level", e.level)}
+      cl   == [j \in 1..Len(e.hs) |-> HeaderClause(e, opts, lcols, e.hs[j])]
       idx  == AscSeq({j \in 1..Len(e.hs) : cl[j].c # "ok"})
       hb   == [k \in 1..Len(idx) |-> [tid |-> e.tid, line |-> line, h |-> idx[k],
                                       clause |-> cl[idx[k]].c, alarm |-> cl[idx[k]].alarm]]
